@@ -815,9 +815,19 @@ func (e *equivSys) apply(f []string) (out string) {
 				dc.held = map[string]int{} // nothing wanted of this type any more
 				break
 			}
+			// optional flags (C05, reconnect): n = the first request presents the nonce retained from the previous
+			// stream; e = a wildcard subscription is made the legacy way (no resource_names_subscribe at all)
+			flags := ""
+			if len(f) > 3 {
+				flags = f[3]
+			}
 			sub := names
-			if len(names) == 0 {
+			if len(names) == 0 && !strings.Contains(flags, "e") {
 				sub = []string{"*"}
+			}
+			firstNonce := ""
+			if strings.Contains(flags, "n") {
+				firstNonce = dc.nonce
 			}
 			dc.subscribed, dc.sub = true, names
 			if !isWildcardType(t) {
@@ -830,7 +840,7 @@ func (e *equivSys) apply(f []string) (out string) {
 				}
 			}
 			// first request on a stream: report everything retained (initial_resource_versions)
-			e.deltaRequest(t, sub, nil, sortedNames(dc.held), "", "-")
+			e.deltaRequest(t, sub, nil, sortedNames(dc.held), firstNonce, "-")
 		} else {
 			add := diffSorted(names, dc.sub)
 			rem := diffSorted(dc.sub, names)
@@ -929,7 +939,20 @@ func genEquiv(stream string, seed uint64, n int, outp string) {
 						if isWildcardType(t2) && r.Chance(5, 6) {
 							names = nil
 						}
-						out.Line("sub", t2, wire.EncList(names))
+						// the delta client presents its old nonce in a third of the first requests and makes
+						// half of its wildcard subscriptions the legacy way (empty resource_names_subscribe)
+						flags := ""
+						if r.Chance(1, 3) {
+							flags += "n"
+						}
+						if len(names) == 0 && r.Chance(1, 2) {
+							flags += "e"
+						}
+						if flags == "" {
+							out.Line("sub", t2, wire.EncList(names))
+						} else {
+							out.Line("sub", t2, wire.EncList(names), flags)
+						}
 					}
 				} else {
 					out.Line("pushall")
